@@ -34,20 +34,20 @@ TRUSTED_BASE = [
 PROPS = {
     'C01': dict(k2=[('walk', {'res', 'holder'})], k1=['verdict', 'struct']),
     'C02': dict(k2=[], k1=['struct'], k3=['methods']),
-    'C03': dict(k2=[('guards', {'res', 'trace'})], k1=[]),
-    'C04': dict(k2=[('walk', {'res', 'trace'}), ('async', {'res', 'trace'})], k1=[]),
-    'C05': dict(k2=[('refuse', {'res', 'trace', 'holder'})], k1=[]),
-    'C06': dict(k2=[('around', {'res', 'trace', 'holder'})], k1=[]),
+    'C03': dict(k1s=True, k2=[('guards', {'res', 'trace'})], k1=[]),
+    'C04': dict(k1s=True, k2=[('walk', {'res', 'trace'}), ('async', {'res', 'trace'})], k1=[]),
+    'C05': dict(k1s=True, k2=[('refuse', {'res', 'trace', 'holder'})], k1=[]),
+    'C06': dict(k1s=True, k2=[('around', {'res', 'trace', 'holder'})], k1=[]),
     'C07': dict(k2=[('walk', {'res', 'holder'})], k1=['verdict', 'struct', 'forest'], k3=['substate']),
-    'C08': dict(k2=[('data', {'res', 'trace', 'holder'}), ('walk', {'holder', 'trace'})], k1=[]),
+    'C08': dict(k1s=True, k2=[('data', {'res', 'trace', 'holder'}), ('walk', {'holder', 'trace'})], k1=[]),
     'C09': dict(k2=[('pair', ALL)], k1=[], direct=['pair']),
     'C10': dict(k2=[('conv', {'res', 'holder', 'c'})], k1=[]),
     'C11': dict(k2=[('data', {'res', 'holder'})], k1=[]),
     'C12': dict(k2=[('guards', {'res'}), ('around', {'res'}), ('walk', {'res'})], k1=[], k4=True),
     'C13': dict(k2=[], k1=['verdict', 'mutants'], k3=['reject']),
     'C14': dict(k2=[], k1=['verdict', 'struct'], k3=['compile']),
-    'C15': dict(k2=[('async', ALL)], k1=[], direct=['twin'], k3=['send']),
-    'C16': dict(k2=[('walk', {'c', 'p', 'trace'}), ('refuse', {'c', 'p', 'trace'}), ('conv', {'c', 'p'})], k1=[]),
+    'C15': dict(k1s=True, k2=[('async', ALL)], k1=[], direct=['twin'], k3=['send']),
+    'C16': dict(k1s=True, k2=[('walk', {'c', 'p', 'trace'}), ('refuse', {'c', 'p', 'trace'}), ('conv', {'c', 'p'})], k1=[]),
     'C17': dict(k2=[], k1=['struct'], k3=['nostd']),
     'C18': dict(k2=[], k1=[], k3=['rename']),
     'C19': dict(k2=[('abandon', ALL), ('refuse', ALL)], k1=[]),
